@@ -17,7 +17,7 @@ func Shrink(p *Prop, idx int, tape []uint32, class string, kf *KnownFindings, bu
 	tries := 0
 	fails := func(c []uint32) bool {
 		tries++
-		res := Execute(p, idx, ReplayTape(c), kf, false)
+		res := ExecuteRetry(p, idx, c, kf, false)
 		return res.Abort == "" && len(res.Run.Viol) > 0 && res.Run.Viol[0].Class == class
 	}
 	cur := append([]uint32(nil), tape...)
@@ -137,7 +137,7 @@ func ShrinkMain(in, out string, budget time.Duration) int {
 	kf, _ := LoadKnown(VerifDir() + "/known_findings.json")
 	kf = kf.Without(p.ID, rf.Violation)
 	min, tries := Shrink(p, rf.RunIndex, rf.Tape, rf.Violation.Class, kf, budget)
-	res := Execute(p, rf.RunIndex, ReplayTape(min), kf, true)
+	res := ExecuteRetry(p, rf.RunIndex, min, kf, true)
 	if len(res.Run.Viol) == 0 || res.Run.Viol[0].Class != rf.Violation.Class {
 		fmt.Fprintln(os.Stderr, "shrink: minimised tape does not reproduce; keeping original")
 		return 3
